@@ -6,6 +6,7 @@ import (
 	"fmt"
 	"go/ast"
 	"go/types"
+	"math/rand"
 	"os"
 	"os/exec"
 	"path/filepath"
@@ -697,6 +698,19 @@ func runCorpus(pid string) []map[string]string {
 		}
 	}
 	sort.Strings(patches)
+	// at most eight cases per run, chosen by VERIF_SEED (every case is run by tools/selftest.py)
+	if len(patches) > 8 {
+		seed := int64(1)
+		if s := os.Getenv("VERIF_SEED"); s != "" {
+			if v, err := strconv.ParseInt(s, 10, 64); err == nil {
+				seed = v
+			}
+		}
+		rng := rand.New(rand.NewSource(seed))
+		rng.Shuffle(len(patches), func(i, j int) { patches[i], patches[j] = patches[j], patches[i] })
+		patches = patches[:8]
+		sort.Strings(patches)
+	}
 	out := make([]map[string]string, len(patches))
 	sem := make(chan struct{}, 2)
 	var wg sync.WaitGroup
